@@ -70,6 +70,10 @@ static void do_enq(int q, int id)
 	int h = vrt_h_call(OP_ENQ, q, id);
 	bool r = cds_wfcq_enqueue(H(q), &tail[q], &items[id].n);
 
+	/* x86-TSO: the enqueue's last store (old_tail->next) may still sit in the store buffer when the call
+	 * returns; for the "WOULDBLOCK only while an enqueue is in flight" rule the operation lasts until its
+	 * stores are globally visible */
+	cmm_smp_mb();
 	vrt_h_ret(h, r);
 }
 
@@ -124,6 +128,7 @@ static void do_splice(int dst, int src)
 			     : __cds_wfcq_splice_blocking(H(dst), &tail[dst], H(src), &tail[src]);
 	else
 		r = cds_wfcq_splice_blocking(&head[dst], &tail[dst], &head[src], &tail[src]);
+	cmm_smp_mb();	/* see do_enq() */
 	vrt_h_ret(h, (long)r);
 	vrt_h_ret(h2, (long)r);
 }
